@@ -416,4 +416,75 @@ decreasing_by
   all_goals (try (have := List.sizeOf_lt_of_mem hkv; have : sizeOf kv.2 < sizeOf kv := by cases kv; simp; omega))
   all_goals (try omega)
 
+/-! ### line splitting of the tokenizer -/
+
+theorem splitOn_ne_nil (sep : Char) (s : List Char) : splitOn sep s ≠ [] := by
+  induction s with
+  | nil => simp [splitOn]
+  | cons c cs ih =>
+    simp only [splitOn]
+    split
+    · simp
+    · split <;> simp
+
+theorem splitOn_no_sep (sep : Char) (s : List Char) (h : sep ∉ s) : splitOn sep s = [s] := by
+  induction s with
+  | nil => simp [splitOn]
+  | cons c cs ih =>
+    have hc : ¬ c = sep := fun e => h (by simp [e])
+    have := ih (fun hm => h (by simp [hm]))
+    simp [splitOn, hc, this]
+
+theorem splitOn_join (sep : Char) (s : List Char) : List.intercalate [sep] (splitOn sep s) = s := by
+  induction s with
+  | nil => simp [splitOn, List.intercalate]
+  | cons c cs ih =>
+    simp only [splitOn]
+    by_cases hc : c = sep
+    · subst hc
+      simp only [if_true]
+      cases hs : splitOn c cs with
+      | nil => exact absurd hs (splitOn_ne_nil c cs)
+      | cons l ls =>
+        rw [hs] at ih
+        simp [List.intercalate] at ih ⊢
+        exact ih
+    · simp only [hc, if_false]
+      cases hs : splitOn sep cs with
+      | nil => exact absurd hs (splitOn_ne_nil sep cs)
+      | cons l ls =>
+        rw [hs] at ih
+        simp [List.intercalate] at ih ⊢
+        cases ls with
+        | nil => simpa using ih
+        | cons l2 ls2 => simpa using ih
+
+theorem splitOn_mem_no_sep (sep : Char) (s : List Char) : ∀ l ∈ splitOn sep s, sep ∉ l := by
+  induction s with
+  | nil => simp [splitOn]
+  | cons c cs ih =>
+    simp only [splitOn]
+    by_cases hc : c = sep
+    · subst hc
+      simp only [if_true]
+      intro l hl
+      simp at hl
+      rcases hl with rfl | hl
+      · simp
+      · exact ih l hl
+    · simp only [hc, if_false]
+      cases hs : splitOn sep cs with
+      | nil => exact absurd hs (splitOn_ne_nil sep cs)
+      | cons l0 ls =>
+        rw [hs] at ih
+        intro l hl
+        simp at hl
+        rcases hl with rfl | hl
+        · intro hm
+          simp at hm
+          rcases hm with e | hm
+          · exact hc e.symm
+          · exact ih l0 (by simp) hm
+        · exact ih l (by simp [hl])
+
 end Templates
